@@ -774,6 +774,12 @@ func Case(run *vlib.Run, i int) {
 	r := run.Rand("case", i)
 	argsT := argsType(r)
 	variant := r.Intn(4)
+	caseBody(run, i, r, argsT, variant, "")
+}
+
+// caseBody runs the sequential legs on one args struct; leg names the family
+// of the case ("" = the general grammar) and selects its random streams.
+func caseBody(run *vlib.Run, i int, r *rand.Rand, argsT reflect.Type, variant int, leg string) {
 	fx, err := newFixture(argsT, variant)
 	if err != nil {
 		run.Broken(fmt.Sprintf("case %d: schema for %s does not build: %v", i, sig(argsT), err))
@@ -809,7 +815,7 @@ func Case(run *vlib.Run, i int) {
 	// positive: all transports carry the same value
 	defaultUsed := false
 	for tr := 0; tr < nTransports; tr++ {
-		rr := run.Rand(fmt.Sprintf("render%d", tr), i)
+		rr := run.Rand(fmt.Sprintf("render%d%s", tr, leg), i)
 		req := render(rr, root, names, tr, pickUses(rr))
 		o := fx.exec(req.query, req.vars, r.Intn(2) == 0)
 		name := transportNames[tr]
@@ -844,7 +850,7 @@ func Case(run *vlib.Run, i int) {
 
 	// negative: one invalid request
 	neg := root.clone()
-	nr := run.Rand("neg", i)
+	nr := run.Rand("neg"+leg, i)
 	class, ok := mutate(nr, neg)
 	mclass := "none"
 	if ok {
@@ -889,8 +895,8 @@ func Case(run *vlib.Run, i int) {
 		}
 	}
 
-	httpLeg(run, i, fx, argsT, root, want, typeSig)
-	positionsLeg(run, i, fx, argsT, names, typeSig, variant&2 == 2)
+	httpLeg(run, i, fx, argsT, root, want, typeSig, leg)
+	positionsLeg(run, i, fx, argsT, names, typeSig, variant&2 == 2, leg)
 
 	var fl []string
 	for f := range feats {
@@ -903,6 +909,9 @@ func Case(run *vlib.Run, i int) {
 	nt := featureCount(feats, defaultUsed) >= 2
 	if nt {
 		run.Count("nontrivial_cases", 1)
+	}
+	if leg != "" {
+		typeSig = leg + "|" + typeSig
 	}
 	run.Case(typeSig+"|"+mclass, nt)
 }
@@ -926,8 +935,8 @@ func markNested(w *wire, feats map[string]bool) {
 // order) the same request again, a wrong-kind twin and a same-look twin of
 // its variables (values that fmt prints identically), and an invalid request
 // from mutate. Every request must be answered from its own variables.
-func httpLeg(run *vlib.Run, i int, fx *fixture, argsT reflect.Type, root *wire, want reflect.Value, typeSig string) {
-	r := run.Rand("http", i)
+func httpLeg(run *vlib.Run, i int, fx *fixture, argsT reflect.Type, root *wire, want reflect.Value, typeSig, leg string) {
+	r := run.Rand("http"+leg, i)
 	if mv, err := decode(root, argsT, false); err != nil {
 		run.Broken(fmt.Sprintf("case %d: reference decoder rejects the generated value: %v", i, err))
 		return
@@ -1004,7 +1013,7 @@ func httpLeg(run *vlib.Run, i int, fx *fixture, argsT reflect.Type, root *wire, 
 
 // Describe records the generation rule and the trusted-base statements.
 func Describe(run *vlib.Run) {
-	run.Rule("case = args struct shape (predeclared input structs or reflect.StructOf with 1-4 fields; field types from the grammar T ::= scalar of every width | named scalar | enum (int32/string/uint8 kinds) | []byte | time.Time | TextUnmarshaler (struct, array) | named input object (incl. recursive, all-optional) | fields the builder must skip (`graphql:\"-\"` or unexported, of the neighbour's or another type) before, between and after the exposed fields of args structs and input objects, which must stay zero | []T | *T, plus `graphql:\"name\"`, `,optional`, `-` tags) " +
+	run.Rule("case = args struct shape (predeclared input structs or reflect.StructOf with 1-4 fields; field types from the grammar T ::= scalar of every width | named scalar | enum (int32/string/uint8 kinds) | []byte | time.Time | TextUnmarshaler (struct, array) [general grammar; see the kind-vs-method leg for the other kinds] | named input object (incl. recursive, all-optional) | fields the builder must skip (`graphql:\"-\"` or unexported, of the neighbour's or another type) before, between and after the exposed fields of args structs and input objects, which must stay zero | []T | *T, plus `graphql:\"name\"`, `,optional`, `-` tags) " +
 		"x one generated value (ints within the type's range and +-2^53 with boundary bias, float32/float64 finite values written in shortest round-trip decimal, strings with quotes/backslashes/control characters/non-BMP runes, RFC3339 second-precision times with Z or +-hh:mm zones, base64 bytes; optional positions left out / explicitly null / given; null list entries) " +
 		"x transports {literal, variable, default with variable left out, default with variable null, value supplied next to a different default, literal containing nested variables (all modes)}; nodes that need `null` go by variable because the pinned parser has no null literal. " +
 		"Every request selects the field 1-3 times (distinct aliases, directly / in an inline fragment / in a named fragment) with the same argument text, so variables and defaults are used several times; every selection must receive the value. " +
@@ -1013,6 +1022,7 @@ func Describe(run *vlib.Run) {
 		"HTTP leg: one graphql.HTTPHandler per case receives a sequence of POSTs with ONE query text (all arguments through variables): the value; then in random order the same again, a wrong-kind twin (one node replaced by a value of another JSON kind that fmt prints identically: 21/\"21\", true/\"true\", list or object/its printed string), a same-look twin (a different valid value that prints identically: neighbouring strings merged or split, null/\"<nil>\", two string fields folded into one) whose expected value comes from the reference decoder, and an invalid request; valid ones must arrive as sent, invalid ones must come back with errors and no resolver call. " +
 		"Positions leg: the field also lives on a Node object (registered with schemabuilder.Expensive in half of the schemas) whose one shared pointer is reachable through node / self; ONE query selects the field at 2-3 positions (two root fields, an object and the same object below it, root and node), usually under the same alias, each position with its own value and transport, sent through the HTTP handler (rerunner context) and in process; the answer at every position must be the digest of the value sent for that position and the resolvers must have received exactly the values sent. " +
 		"Concurrent leg (every 16th case index in c18; all cases of package c18conc, which is built with -race): 8 clients x 2 requests at the same time on ONE schema (HTTP handler / in-process alternating), each request with its own value and transport of the same args type (in c18: generated shapes, two thirds starting with a TextUnmarshaler field, and every other concurrent case a compile-time struct; in c18conc: only the 8 compile-time args structs CA1..CA8 served by ordinary closures, no reflect.StructOf / reflect.MakeFunc; long texts and an UnmarshalText with a scheduling point); each answer must be the digest of the value that request sent. " +
+		"Kind-vs-method leg (every 8th case): the same sequential legs (all transports, one invalid request, HTTP sequence, positions query) on an args struct with 1-3 arguments whose Go type implements encoding.TextUnmarshaler on a representation that, by reflect kind alone, would travel differently: named []byte (hex id; net.IP of the standard library), named []string (comma separated), named []int32, map[string]string, a struct with the representation of time.Time (unix seconds), array and exported-field struct; each as plain / pointer / list element / list-of-pointers element / nested-list element / field of the predeclared input objects InK, InK2 (plain, pointer, list, `,optional`) / in the compile-time args structs KA1, KA2, with 0-2 arguments of the general grammar around them. The text sent is generated per type (hex in both cases, so texts that are and are not valid base64; dotted and colon IP forms; decimal digits) and the value that must arrive is what the type's own UnmarshalText makes of that text; such positions accept JSON strings only. " +
 		"Paginated leg (every 4th case): Paginated field funcs with their own arguments in both forms (args struct next to first/after/..., and args struct embedding schemabuilder.PaginationArgs) with pointer / `,optional` arguments; request sequences on one schema: valid; invalid because one required custom argument has the wrong kind while every optional argument is given; valid with the optional arguments left out (must arrive nil / zero); half of the cases one request at a time (HTTP handler / in process), half with 4 clients sending (invalid, valid) pairs at the same time. " +
 		"Many-lists leg (every 16th case): graphql.MaxQueryNesting (public knob) is set to 250 for the run; documents only a few levels deep but containing more list literals than that limit (one [][]int64 literal with 260-385 rows, or 90+ aliased selections each carrying list literals) and the same values through variables; every selection's answer must be the digest of its value. " +
 		"Websocket leg (every 64th case): one graphql.ServeJSONSocket connection over a socket whose messages are JSON bytes receives 3-6 subscribe / mutate messages that declare the same variables (one per argument); the first supplies all of them, later ones supply some, rely on declared defaults for others and leave the rest undefined, with the variables member present / empty / null / missing; each message must be answered from its own variables (default used, optional nil / zero). " +
